@@ -5,13 +5,42 @@ from vlib import common as C
 TS = re.compile(rb'((?:Date|Last-Modified)-Unix-Epoch-Nanos: )(\d+)')
 
 def mask_ts(raw):
-    return TS.sub(lambda m: m.group(1) + b'0' * len(m.group(2)), raw)
+    """canonical form of response bytes: the two timestamp header values are masked, and the
+    lines of a text/plain echo body (HashMap iteration order in the real code) are sorted"""
+    raw = TS.sub(lambda m: m.group(1) + b'0' * len(m.group(2)), raw)
+    i = raw.find(b'\r\n\r\n')
+    if i > 0 and b'Content-Type: text/plain\r\n' in raw[:i + 2] and b' is ' in raw[i + 4:] and raw.startswith(b'HTTP/1.1 200'):
+        body = raw[i + 4:]
+        raw = raw[:i + 4] + b'\r\n'.join(sorted(body.split(b'\r\n')))
+    return raw
+
+def err_text(r):
+    """the opaque error text of a case, recovered from the implementation's answer (status >= 400):
+    the body, or for bodiless answers a text with the advertised number of chars and bytes"""
+    raw = r['writes'][0] if r['writes'] else (C.unhx(r['head'][4:]) if r['head'].startswith('ret:') and len(r['head']) > 4 else b'')
+    i = raw.find(b'\r\n\r\n')
+    m = re.match(rb'HTTP/1\.1 (\d{3}) ', raw)
+    if i < 0 or not m or int(m.group(1)) < 400: return b''
+    body = raw[i + 4:]
+    if body: return body
+    cl = re.search(rb'\r\nContent-Length: (\d+)\r\n', raw[:i + 2])
+    cr = re.search(rb'\r\nContent-Range: bytes 0-(\d+)/', raw[:i + 2])
+    if not cl: return b''
+    nbytes = int(cl.group(1)); nchars = int(cr.group(1)) if cr else nbytes
+    extra = nbytes - nchars
+    if 0 <= extra <= nchars: return '\u00e9'.encode() * extra + b'x' * (nchars - extra)
+    return b'x' * nbytes
 
 class Tree:
     """files: {relpath(bytes) under the scratch base: content}; dirs, links likewise; cwd: served root (relpath)"""
+    _n = [0]
     def __init__(self, cwd):
+        import os, tempfile
         self.cwd = cwd if isinstance(cwd, bytes) else cwd.encode()
         self.files, self.dirs, self.links = {}, [], {}
+        Tree._n[0] += 1
+        # absolute root of this tree on disk: both sides see the same path strings
+        self.root = os.path.join(tempfile.gettempdir(), 'rwsv-%d-%d' % (os.getpid(), Tree._n[0])).encode()
     def file(self, rel, content):
         self.files[rel if isinstance(rel, bytes) else rel.encode()] = content; return self
     def dir(self, rel):
@@ -21,7 +50,7 @@ class Tree:
     def line(self):
         es = [f'F:{C.hx(p)}:{C.hx(c)}' for p, c in self.files.items()] + [f'D:{C.hx(p)}' for p in self.dirs] + \
              [f'L:{C.hx(p)}:{C.hx(t)}' for p, t in self.links.items()]
-        return f'tree {C.hx(self.cwd)} ' + (','.join(es) if es else '-')
+        return f'tree {C.hx(self.root)} {C.hx(self.cwd)} ' + (','.join(es) if es else '-')
     def under_root(self):
         pre = self.cwd + b'/'
         return {p[len(pre):]: c for p, c in self.files.items() if p.startswith(pre)}
@@ -80,7 +109,17 @@ def canon(line):
     head = r['head']
     if head.startswith('ret:'):
         head = 'ret:' + C.hx(mask_ts(C.unhx(head[4:])))
-    ws = '.'.join(C.hx(mask_ts(w)) for w in r['writes']) or '-'
+    # with write_all every later buffer is a suffix of the first: mask the whole response once
+    # and cut the suffixes out of the masked text (a suffix may start inside a masked value)
+    if r['writes']:
+        full = r['writes'][0]; mfull = mask_ts(full)
+        outw = []
+        for w in r['writes']:
+            if len(mfull) == len(full) and full.endswith(w): outw.append(mfull[len(full) - len(w):])
+            else: outw.append(mask_ts(w))
+        ws = '.'.join(C.hx(w) for w in outw)
+    else:
+        ws = '-'
     return f"{head} w={ws} recv={C.hx(mask_ts(r['recv']))} fl={r['flushes']}"
 
 DEFAULT_ENV = [('RWS_CONFIG_IP', '127.0.0.1'), ('RWS_CONFIG_PORT', '7878'), ('RWS_CONFIG_THREAD_COUNT', '200'),
